@@ -34,6 +34,8 @@ use vh_common::Report;
 use vh_common::report::{Violation, Violations};
 
 metrique_writer::sink::global_entry_sink! { VerifGlobal }
+// a second global in the same process (two-globals histories: each routes by its own state only)
+metrique_writer::sink::global_entry_sink! { VerifGlobalB }
 
 // ------------------------------------------------------------------------------------------
 // operations
@@ -1308,7 +1310,96 @@ fn attach_to_stream_under_overrides() -> ! {
     std::process::exit(0)
 }
 
+/// Two globals alive in one process: every combination of (state of A) x (state of B) over
+/// {nothing, attached sink, thread-local test sink, runtime test sink of the one runtime}; inside
+/// that runtime one entry is appended through each global. Each global routes by its OWN state
+/// only (instances 1-3 belong to A, 11-13 to B), and installing a test sink for B never fails
+/// because A has one.
+fn two_globals() -> ! {
+    let rt = tokio::runtime::Builder::new_current_thread().build().expect("runtime");
+    let mut v = Violations::default();
+    let names = ["nothing", "attached sink", "thread-local test sink", "runtime test sink"];
+    let expected = |state: usize, base: u64| -> Option<u64> { [None, Some(base + 3), Some(base + 1), Some(base + 2)][state] };
+    let (mut histories, mut transitions, mut restore) = (0u64, 0u64, 0u64);
+    for a_state in 0..4usize {
+        for b_state in 0..4usize {
+            for b_first in [false, true] {
+                histories += 1;
+                let replay = json!({"history": [format!("A: {}", names[a_state]), format!("B: {}", names[b_state]), format!("installed {} first", if b_first { "B" } else { "A" }), "inside the runtime: A.try_append, B.try_append", "drop everything", "A.try_append, B.try_append"]});
+                let install_a = || {
+                    catch_unwind(AssertUnwindSafe(|| {
+                        (
+                            (a_state == 1).then(|| VerifGlobal::attach((RecSink { inst: 3 }, RecHandle { inst: 3 }))),
+                            (a_state == 2).then(|| VerifGlobal::set_test_sink(BoxEntrySink::new(RecSink { inst: 1 }))),
+                            (a_state == 3).then(|| VerifGlobal::set_test_sink_for_tokio_runtime(rt.handle(), BoxEntrySink::new(RecSink { inst: 2 }))),
+                        )
+                    }))
+                };
+                let install_b = || {
+                    catch_unwind(AssertUnwindSafe(|| {
+                        (
+                            (b_state == 1).then(|| VerifGlobalB::attach((RecSink { inst: 13 }, RecHandle { inst: 13 }))),
+                            (b_state == 2).then(|| VerifGlobalB::set_test_sink(BoxEntrySink::new(RecSink { inst: 11 }))),
+                            (b_state == 3).then(|| VerifGlobalB::set_test_sink_for_tokio_runtime(rt.handle(), BoxEntrySink::new(RecSink { inst: 12 }))),
+                        )
+                    }))
+                };
+                let (ga, gb);
+                if b_first {
+                    gb = install_b();
+                    ga = install_a();
+                } else {
+                    ga = install_a();
+                    gb = install_b();
+                }
+                transitions += 2;
+                if ga.is_err() || gb.is_err() {
+                    v.add("two-globals:install-refused-because-of-the-other-global", format!("A: {}, B: {} ({} first): installing panicked for {}", names[a_state], names[b_state], if b_first { "B" } else { "A" }, if ga.is_err() { "A" } else { "B" }), replay.clone());
+                }
+                let mut probe = |phase: &str, a_exp: Option<u64>, b_exp: Option<u64>, v: &mut Violations| {
+                    for (which, exp) in [("A", a_exp), ("B", b_exp)] {
+                        let id = 300 + histories * 4 + if which == "A" { 0 } else { 1 } + if phase == "after" { 2 } else { 0 };
+                        let before = lock(&LOG).len();
+                        let back = rt.block_on(async {
+                            if which == "A" {
+                                VerifGlobal::try_append(VEntry { id, tag: tag_of(id) }).err().map(|e| e.id)
+                            } else {
+                                VerifGlobalB::try_append(VEntry { id, tag: tag_of(id) }).err().map(|e| e.id)
+                            }
+                        });
+                        let got: Vec<u64> = lock(&LOG)[before..].iter().filter_map(|e| if let Ev::Recv { inst, id: i, .. } = e { (*i == id).then_some(*inst) } else { None }).collect();
+                        let ok = match exp {
+                            None => back == Some(id) && got.is_empty(),
+                            Some(inst) => back.is_none() && got == vec![inst],
+                        };
+                        if !ok {
+                            v.add(
+                                format!("two-globals:{}-routed-by-the-other-globals-state", if phase == "after" { "after-cleanup" } else { "entry" }),
+                                format!("A: {}, B: {} ({phase}): an entry appended through global {which} inside the runtime was delivered to instance(s) {got:?} (handed back: {}), expected {}", names[a_state], names[b_state], back.is_some(), match exp { None => "to be handed back".to_string(), Some(i) => format!("instance {i} only") }),
+                                replay.clone(),
+                            );
+                        }
+                    }
+                };
+                probe("during", if ga.is_ok() { expected(a_state, 0) } else { None }, if gb.is_ok() { expected(b_state, 10) } else { None }, &mut v);
+                transitions += 2;
+                drop(ga);
+                drop(gb);
+                probe("after", None, None, &mut v);
+                restore += 2;
+            }
+        }
+    }
+    let viol: Vec<J> = v.by_key.values().map(|v| json!({"key": v.key, "what": v.what, "replay": v.replay, "count": v.count})).collect();
+    println!("{}", json!({"histories": histories, "transitions": transitions, "cleanup_ops": 0, "restore_checks": restore, "states": [], "outcomes": vec![0u64; 13], "violations": viol, "aborted": false, "extra": {}}));
+    std::process::exit(0)
+}
+
 fn child_main(a: &[String]) -> ! {
+    if a.first().map(|s| s.as_str()) == Some("two-globals") {
+        std::panic::set_hook(Box::new(|_| {}));
+        two_globals();
+    }
     if a.first().map(|s| s.as_str()) == Some("attach-to-stream-under-overrides") {
         std::panic::set_hook(Box::new(|_| {}));
         attach_to_stream_under_overrides();
@@ -1622,6 +1713,13 @@ fn parent_main() {
         exhaustive = false;
     }
     spaces_json.push(json!({"space": "fixed histories: attach_to_stream with nothing attached under no / a thread-local / a runtime test sink, then the override dropped, an append, the handle dropped", "histories_in_space": 3, "histories_executed": 3}));
+
+    // 2e. two globals alive in one process: (state of A) x (state of B) x (install order)
+    let outs_t = run_jobs(&[vec![s("two-globals")]], 1);
+    if merge(&outs_t, &mut tot, &mut rep) != 32 {
+        exhaustive = false;
+    }
+    spaces_json.push(json!({"space": "two globals in one process: {nothing, attached, thread-local test sink, runtime test sink} for each, both install orders; one append through each global inside the runtime, then everything dropped and one append through each again", "histories_in_space": 32, "histories_executed": 32}));
 
     // 3. forget anywhere: one fresh process per history
     let fa_cfg = EnumCfg { depth: forget_anywhere_len, sym: false, max_obs: unlimited, allow_forget: true };
